@@ -9,17 +9,22 @@ The model is `DesperModel/Tree.lean`: `callH` is `Handle.__call__`, `clearH` is 
 path to a resource: `h()` (`.call`), `m['a/b']` (`.getitem`), `m['a']['b']` (`.chain`), item and
 attribute chains on a static map (`.sitems`), and the operations that must not load
 (`.get`, `.sget`, `.cached`, assignments, `clear`, `get_static_map`).  Histories start from the
-program's initial state `{}` (every handle fresh).  Loaded resources are opaque tokens
-`Val.tok h n` = "the object returned by the n-th `load()` of `h`"; the model has no operation
-that inspects one (no truthiness, no equality).
+program's initial state `init F` (every map empty, every handle fresh), where `F h k` says whether
+the k-th invocation of `load()` of handle `h` raises (an arbitrary loader script; `{}` is the
+script in which no loader ever raises).  `loads` counts the invocations of `load()` that returned,
+`tries` all of them.  Loaded resources are opaque tokens `Val.tok h n` = "the object returned by
+the n-th `load()` of `h` that returned"; `Val.exc h k` is not a value but the exception of the k-th
+invocation leaving the access.  The model has no operation that inspects a resource (no
+truthiness, no equality).
 -/
 
 /-- **At most one load between two clears, through every access path.**  Over a history `seg`
 (any operations of the model, arbitrarily interleaved, on any tree) that contains no `h.clear()`,
-run after an arbitrary history `pre`, `load()` of `h` runs at most once. -/
-theorem C12_at_most_once (pre seg : List Op) (h : HId) (hc : Op.hclear h ∉ seg) :
-    ((exec (exec {} pre) seg).h h).loads ≤ ((exec {} pre).h h).loads + 1 := by
-  have cs := exec_step (exec {} pre) seg h (exec_inv {} pre HInv_init) hc
+run after an arbitrary history `pre`, at most one `load()` of `h` returns (loaders that raise
+included: an invocation that raises caches nothing and is not counted in `loads`). -/
+theorem C12_at_most_once (F : HId → Nat → Bool) (pre seg : List Op) (h : HId) (hc : Op.hclear h ∉ seg) :
+    ((exec (exec (init F) pre) seg).h h).loads ≤ ((exec (init F) pre).h h).loads + 1 := by
+  have cs := exec_step (exec (init F) pre) seg h (exec_inv (init F) pre (HInv_initF F)) hc
   rcases cs with cs | ⟨_, cs⟩ <;> simp only [cell, Prod.mk.injEq] at cs <;> omega
 
 example : ((exec (exec {} [.set (.decl 0) "a/b" (.handle 0)])
@@ -29,12 +34,12 @@ example : ((exec (exec {} [.set (.decl 0) "a/b" (.handle 0)])
 accesses of a clear-free history (`valOf` picks the loaded resource out of the result of `h()`,
 `m[...]`, `m[..][..]`, `static[..]`/`static.attr`) are the same object `tok h a`; it is the one
 produced by the load that is current at the end of the history, and `h` is cached. -/
-theorem C12_same_object (pre seg : List Op) (h : HId) (a b : Nat) (hc : Op.hclear h ∉ seg)
-    (ha : Val.tok h a ∈ (run (exec {} pre) seg).2.filterMap valOf)
-    (hb : Val.tok h b ∈ (run (exec {} pre) seg).2.filterMap valOf) :
-    a = b ∧ a = ((exec (exec {} pre) seg).h h).loads ∧
-      ((exec (exec {} pre) seg).h h).cache = Val.tok h a := by
-  have hi := exec_inv {} pre HInv_init
+theorem C12_same_object (F : HId → Nat → Bool) (pre seg : List Op) (h : HId) (a b : Nat) (hc : Op.hclear h ∉ seg)
+    (ha : Val.tok h a ∈ (run (exec (init F) pre) seg).2.filterMap valOf)
+    (hb : Val.tok h b ∈ (run (exec (init F) pre) seg).2.filterMap valOf) :
+    a = b ∧ a = ((exec (exec (init F) pre) seg).h h).loads ∧
+      ((exec (exec (init F) pre) seg).h h).cache = Val.tok h a := by
+  have hi := exec_inv (init F) pre (HInv_initF F)
   have ra := run_vals _ seg h a hi hc ha
   have rb := run_vals _ seg h b hi hc hb
   refine ⟨ra.1.trans rb.1.symm, ra.1, ?_⟩
@@ -46,28 +51,30 @@ example : (run (exec {} [.set (.decl 0) "a/b" (.handle 0), .snap (.decl 0)])
     = [.tok 0 1, .tok 0 1, .tok 0 1] := by decide
 
 /-- **`cached` tells whether the next access will load.**  (1) While `h.cached` is true no
-operation at all makes `h` load.  (2) While it is false, an access loads: `h()` does, and so does
-every path access that reaches `h` — `m[key]` when `m.get(key)` is `h` (3), one step of an item /
-attribute chain on a static map when the snapshot has `h` under that name (4). -/
-theorem C12_cached_iff (pre : List Op) (h : HId) :
-    let st := exec {} pre
+operation at all makes `h` load.  (2) While it is false, an access loads: `h()` does (given
+that this invocation of the loader does not raise; `C12_failed_load_retry` is the other case), and
+so does every path access that reaches `h` — `m[key]` when `m.get(key)` is `h` is exactly `h()`
+(3), and so is one step of an item / attribute chain on a static map when the snapshot has `h`
+under that name (4) (`itemOf` hands on the resource, or the loader's exception). -/
+theorem C12_cached_iff (F : HId → Nat → Bool) (pre : List Op) (h : HId) :
+    let st := exec (init F) pre
     (cachedH st h = true → ∀ op, ((step st op).1.h h).loads = (st.h h).loads) ∧
-    (cachedH st h = false → ((callH st h).1.h h).loads = (st.h h).loads + 1 ∧
-        cachedH (callH st h).1 h = true) ∧
+    (cachedH st h = false → st.failing h ((st.h h).tries + 1) = false →
+        ((callH st h).1.h h).loads = (st.h h).loads + 1 ∧ cachedH (callH st h).1 h = true) ∧
     (∀ i key, get st i key = some (.handle h) →
-        getItem st i key = ((callH st h).1, .ok (.val (callH st h).2))) ∧
+        getItem st i key = ((callH st h).1, itemOf (callH st h).2)) ∧
     (∀ s k, (st.s s).handleNames.contains k = true → sGet1 st s k = some (.handle h) →
-        sGetAttr1 st s k = ((callH st h).1, .ok (.val (callH st h).2))) := by
+        sGetAttr1 st s k = ((callH st h).1, itemOf (callH st h).2)) := by
   intro st
-  have hi : HInv st := exec_inv {} pre HInv_init
-  refine ⟨fun hc op => ?_, fun hc => ?_, fun i key hg => ?_, fun s k hn hg => ?_⟩
+  have hi : HInv st := exec_inv (init F) pre (HInv_initF F)
+  refine ⟨fun hc op => ?_, fun hc hf => ?_, fun i key hg => ?_, fun s k hn hg => ?_⟩
   · by_cases e : op = .hclear h
     · subst e; simp [step, clearH]
     · rcases (step_props st op hi).1 h e with cs | ⟨cs, _⟩
       · simp only [cell, Prod.mk.injEq] at cs; exact cs.2.2
       · simp only [cachedH] at hc; rw [hc] at cs; cases cs
   · simp only [cachedH] at hc
-    simp [callH, hc, cachedH]
+    simp [callH, hc, hf, cachedH]
   · simp only [Desper.Tree.get, getPath] at hg
     simp only [getItem, getItemPath]
     cases hw : walk st i (keyPath key).1 with
@@ -86,26 +93,61 @@ example : cachedH (exec {} [.call 3, .hclear 3]) 3 = false ∧ cachedH (exec {} 
   decide
 
 /-- **After `clear()` the next access loads afresh.**  Whatever happened before, right after
-`h.clear()` the handle is not cached; the next access runs `load()` once more and hands out a
-new object: its token is different from every token handed out before (its load number is larger
-than the load counter ever was). -/
-theorem C12_clear_reloads (pre : List Op) (h : HId) :
-    let st := exec {} (pre ++ [.hclear h])
+`h.clear()` the handle is not cached; the next access runs `load()` once more and (unless that
+invocation raises) hands out a new object: its token is different from every token handed out
+before (its load number is larger than the load counter ever was). -/
+theorem C12_clear_reloads (F : HId → Nat → Bool) (pre : List Op) (h : HId) :
+    let st := exec (init F) (pre ++ [.hclear h])
     cachedH st h = false ∧
-    ((callH st h).1.h h).loads = ((exec {} pre).h h).loads + 1 ∧
-    (callH st h).2 = Val.tok h (((exec {} pre).h h).loads + 1) ∧
-    (∀ a, Val.tok h a ∈ (run {} pre).2.filterMap valOf → a < ((exec {} pre).h h).loads + 1) := by
+    (st.failing h ((st.h h).tries + 1) = false →
+      ((callH st h).1.h h).loads = ((exec (init F) pre).h h).loads + 1 ∧
+      (callH st h).2 = Val.tok h (((exec (init F) pre).h h).loads + 1)) ∧
+    (∀ a, Val.tok h a ∈ (run (init F) pre).2.filterMap valOf → a < ((exec (init F) pre).h h).loads + 1) := by
   intro st
-  have e : st = clearH (exec {} pre) h := by
+  have e : st = clearH (exec (init F) pre) h := by
     simp only [st, exec_append]; rfl
   have hcached : (st.h h).cached = false := by rw [e]; simp [clearH]
-  have hloads : (st.h h).loads = ((exec {} pre).h h).loads := by rw [e]; simp [clearH]
-  refine ⟨hcached, ?_, ?_, ?_⟩
-  · simp [callH, hcached, hloads]
-  · simp [callH, hcached, hloads]
+  have hloads : (st.h h).loads = ((exec (init F) pre).h h).loads := by rw [e]; simp [clearH]
+  refine ⟨hcached, fun hf => ?_, ?_⟩
+  · simp [callH, hcached, hloads, hf]
   · intro a ha
     -- a token handed out earlier carries a load number that the counter had reached
-    have := run_vals_le {} pre h a HInv_init ha
+    have := run_vals_le (init F) pre h a (HInv_initF F) ha
     omega
 
 example : (callH (exec {} [.call 0, .hclear 0]) 0).2 = Val.tok 0 2 := by decide
+
+/-- **A load that raises leaves the handle un-cached, and the next access loads again.**  In any
+reachable state, for an un-cached handle whose next `load()` invocation raises: the access hands
+the exception on (`h()` gives `Val.exc`, `m[key]` raises it) and leaves the cache cell exactly as it
+was — not cached, same stored value, `loads` unchanged; only the invocation counter moved.  The
+following access invokes `load()` again and, if that invocation returns, caches and hands out its
+object. -/
+theorem C12_failed_load_retry (F : HId → Nat → Bool) (pre : List Op) (h : HId) :
+    let st := exec (init F) pre
+    cachedH st h = false → st.failing h ((st.h h).tries + 1) = true →
+    (callH st h).2 = Val.exc h ((st.h h).tries + 1) ∧
+    cell (callH st h).1 h = cell st h ∧ ((callH st h).1.h h).tries = (st.h h).tries + 1 ∧
+    (∀ i key, Desper.Tree.get st i key = some (.handle h) →
+      (getItem st i key).2 = .raised "LoadError") ∧
+    ((callH st h).1.failing h ((st.h h).tries + 2) = false →
+      (callH (callH st h).1 h).2 = Val.tok h ((st.h h).loads + 1) ∧
+      cachedH (callH (callH st h).1 h).1 h = true) := by
+  intro st hc hf
+  simp only [cachedH] at hc
+  have e : callH st h = (st.setH h { st.h h with tries := (st.h h).tries + 1 }, Val.exc h ((st.h h).tries + 1)) := by
+    simp [callH, hc, hf]
+  refine ⟨by rw [e], by rw [e]; simp [cell], by rw [e]; simp, fun i key hg => ?_, fun hf2 => ?_⟩
+  · have := (C12_cached_iff F pre h).2.2.1 i key hg
+    rw [this, e]; rfl
+  · rw [e] at hf2 ⊢
+    have hf2' : st.failing h ((st.h h).tries + 1 + 1) = false := hf2
+    simp [callH, hc, hf2', cachedH]
+
+example :
+    let st0 : St := init (fun h k => h == 0 && k == 1)
+    (callH st0 0).2 = Val.exc 0 1 ∧ cachedH (callH st0 0).1 0 = false ∧
+    (callH (callH st0 0).1 0).2 = Val.tok 0 1 ∧
+    (run st0 [.set (.decl 0) "a" (.handle 0), .getitem (.decl 0) "a", .getitem (.decl 0) "a"]).2
+      = [.unit, .item (.raised "LoadError"), .item (.ok (.val (.tok 0 1)))] := by decide
+
